@@ -2065,3 +2065,39 @@ PROPS.update({
             'assumes': ['thread interleavings not scheduled during the run, output through descriptors other than 1/2, and state that changes results only after more calls than performed are not covered']},
     'C20': {'run': run_c20, 'search': generic_search(run_c20), 'assumes': []},
 })
+
+
+# =============================================================================== inputs from the symbolic search
+def o_errs_full(c, r):
+    return r
+
+
+EXTRA_OBS = {   # what a property compares on the decode channels (DESIGN 6.2), and whether a difference is itself a failing input
+    'C01': (lambda c, r: 'RETURNS' if returns(r) and cls(r) != 'ErrEmpty' else cls(r), False),
+    'C02': (lambda c, r: 'RETURNS' if returns(r) else cls(r), False),
+    'C05': (c05_obs, True), 'C08': (o_class_rem, False), 'C10': (o_class, False), 'C14': (o_class, False),
+    'C15': (o_errs_full, True), 'C16': (o_errs_full, True), 'C20': (o_errs_full, True),
+}
+
+
+def extra_pass(ctx, rep, prop):
+    """the inputs solved from the path conditions on which the regenerated decoder differs from the Model
+    (py/symsearch.py), through the decode channels under all eight option sets, compared by this property's observation"""
+    if prop not in EXTRA_OBS or not (corpus.EXTRA_DEC or corpus.EXTRA_AVPS):
+        return
+    obs, conf = EXTRA_OBS[prop]
+    cases, tags = [], []
+    for (t, b) in corpus.EXTRA_DEC:
+        for o in range(8):
+            cases.append('DEC\t%d\t%s' % (o, b.hex())); tags.append(t)
+    for (t, b) in corpus.EXTRA_AVPS:
+        cases.append('AVPS\t' + b.hex()); tags.append(t)
+    before = len(rep.disagreements)
+    res = run_compare(ctx, rep, cases, tags, obs)
+    if prop == 'C01':
+        c01_pred(rep, cases, res)
+    if conf:
+        for d in rep.disagreements[before:]:
+            rep.fail('implementation differs from the specification on an input solved from the regenerated decoder', case=d['case'][:600],
+                     executor=d['executor'], implementation=d['implementation'][:600], specification=d['model'][:600])
+        del rep.disagreements[before:]
